@@ -1140,7 +1140,12 @@ class Evaluator:
         acc = self.expr(vals[0], fr)
         f0 = fr.facts
         for nxt in vals[1:]:
+            # the branching condition is decided with the facts that hold BEFORE the expression only (the facts added
+            # below hold while the next operand is evaluated, not for the value as a whole)
+            inner = fr.facts
+            fr.facts = f0
             c = self.decide(T.truth(acc), fr)
+            fr.facts = inner
             if isinstance(e.op, ast.And):
                 if c == T.FALSE:
                     break
@@ -1307,6 +1312,10 @@ class Evaluator:
             return T.phi(base[1], self._getitem(base[2], idx), self._getitem(base[3], idx))
         if T.tag(idx) == 'phi':
             return T.phi(idx[1], self._getitem(base, idx[2]), self._getitem(base, idx[3]))
+        if T.is_op(idx, 'SLICEOBJ'):
+            if idx[4] != T.NONE:
+                return T.opaque('slice step')
+            return self._slice(base, idx[2], idx[3])
         return T.getitem(base, idx)
 
     def ex_JoinedStr(self, e, fr):
